@@ -22,7 +22,16 @@ pub struct Input {
 }
 
 pub fn make_input(id: String, src: &Source, rng: &mut Rng) -> Option<Input> {
-    let opts = Opts::random(rng, src.n);
+    make_input_class(id, src, rng, false)
+}
+
+/// `c2d_false`: emit a c2d file that keeps its false nodes (`O 0 0`), i.e. dead branches stay in
+/// the file; the c2d loader performs no false-elimination (finding K7 for the syntactic core).
+pub fn make_input_class(id: String, src: &Source, rng: &mut Rng, c2d_false: bool) -> Option<Input> {
+    let mut opts = Opts::random(rng, src.n);
+    if c2d_false {
+        opts.keep_false = true;
+    }
     let dag = compile(&src.cnf, &opts)?;
     let models = if src.n <= 16 { Some(models(&src.cnf, src.n)) } else { None };
     if let Some(m) = &models {
@@ -30,10 +39,10 @@ pub fn make_input(id: String, src: &Source, rng: &mut Rng) -> Option<Input> {
             return None;
         }
     }
-    let c2d = rng.chance(1, 3);
+    let c2d = c2d_false || rng.chance(1, 3);
     let (format, lines, extra) = if c2d {
-        let co = C2dOpts { keep_true: rng.chance(1, 4), keep_false: false };
-        let e = format!("c2d keep_true={}", co.keep_true as u8);
+        let co = C2dOpts { keep_true: rng.chance(1, 4), keep_false: c2d_false };
+        let e = format!("c2d keep_true={} keep_false={}", co.keep_true as u8, co.keep_false as u8);
         ("c2d", emit_c2d(&dag, src.n, &co), e)
     } else {
         ("d4", emit_d4(&dag, &opts, rng), String::new())
